@@ -29,6 +29,8 @@ CONSTANTS
   Catalogue <- MCCatalogue
   Export = TRUE
 INVARIANT RejectsNSC
+INVARIANT FinishTotal
+INVARIANT GridExact
 INVARIANT SurfaceCount
 INVARIANT RadiusLaw
 INVARIANT VertexLaw
